@@ -16,6 +16,30 @@ pub const BASE_NS: u64 = 1_700_000_000 * SEC;
 // ---------------------------------------------------------------------------------------------
 // rule specifications
 
+/// f64 that survives JSON: NaN / infinities are written as strings
+pub mod f64_json {
+    use serde::{Deserialize, Deserializer, Serializer};
+    pub fn serialize<S: Serializer>(v: &f64, s: S) -> Result<S::Ok, S::Error> {
+        if v.is_finite() {
+            s.serialize_f64(*v)
+        } else {
+            s.serialize_str(&format!("{}", v))
+        }
+    }
+    pub fn deserialize<'de, D: Deserializer<'de>>(d: D) -> Result<f64, D::Error> {
+        #[derive(Deserialize)]
+        #[serde(untagged)]
+        enum E {
+            N(f64),
+            S(String),
+        }
+        Ok(match E::deserialize(d)? {
+            E::N(x) => x,
+            E::S(s) => s.parse::<f64>().unwrap_or(f64::NAN),
+        })
+    }
+}
+
 #[derive(Serialize, Deserialize, Clone, Debug, PartialEq)]
 pub struct FlowSpec {
     pub id: String,
@@ -31,6 +55,7 @@ pub struct FlowSpec {
     /// 0 Current, 1 Associated
     #[serde(default)]
     pub relation: u8,
+    #[serde(with = "f64_json")]
     pub threshold: f64,
     #[serde(default)]
     pub warm_period: u32,
@@ -107,6 +132,7 @@ pub struct BreakerSpec {
     pub buckets: u32,
     #[serde(default)]
     pub max_rt: u64,
+    #[serde(with = "f64_json")]
     pub threshold: f64,
 }
 
@@ -223,6 +249,7 @@ pub struct SysSpec {
     pub id: String,
     /// 0 Load, 1 AvgRT, 2 Concurrency, 3 InboundQPS, 4 CpuUsage
     pub metric: u8,
+    #[serde(with = "f64_json")]
     pub threshold: f64,
     /// 0 NoAdaptive, 1 BBR
     #[serde(default)]
